@@ -4,6 +4,7 @@ package e2e
 // moments of the traffic against the real agent started through run.Reloader.
 
 import (
+	"os"
 	"testing"
 
 	"pgregory.net/rapid"
@@ -11,7 +12,38 @@ import (
 	"verifharness/vh"
 )
 
+// genReloadBacklogScenario: a reload while a long backlog of chunk files waits and traffic keeps flowing. The upstream
+// refuses connections until some time after the reload and is healthy from then on WITHOUT a restart in between, so what
+// it receives is the order of the new pipeline's queue: the recovered backlog first, then what was accepted afterwards.
+func genReloadBacklogScenario(t *rapid.T) Scenario {
+	var sc Scenario
+	sc.Family = "reload-backlog"
+	sc.Reloader = true
+	sc.Modes = []string{"Forward"}
+	sc.MemWindow = 16
+	sc.ChunkBytes = 300
+	sc.BatchLogs = 8
+	var gen Generation
+	gen.Conns = []ConnSpec{
+		{Close: "graceful", Recs: []Rec{{Size: 250}}, Bulk: rapid.IntRange(800, 2500).Draw(t, "backlog"), BulkSize: 250},
+		{Close: "graceful", Recs: []Rec{{Size: 250}}, Bulk: rapid.IntRange(150, 400).Draw(t, "trickle"), BulkSize: 250, BulkPause: 1, StartMs: 5},
+	}
+	var ups []vh.UpstreamAttempt
+	for i := rapid.IntRange(25, 70).Draw(t, "refusals"); i > 0; i-- {
+		ups = append(ups, vh.UpstreamAttempt{Kind: "refuse"})
+	}
+	gen.Upstream = [][]vh.UpstreamAttempt{ups}
+	gen.Down = []bool{false}
+	gen.Reloads = []ReloadSpec{{AtMs: rapid.IntRange(60, 250).Draw(t, "atMs"), Variant: "valid"}}
+	gen.StopAfter = 3000
+	sc.Gens = []Generation{gen, {StopAfter: 3000, Upstream: [][]vh.UpstreamAttempt{nil}, Down: []bool{false}}}
+	return sc
+}
+
 func genReloadScenario(t *rapid.T) Scenario {
+	if rapid.IntRange(0, 5).Draw(t, "backlogFamily") == 0 {
+		return genReloadBacklogScenario(t)
+	}
 	var sc Scenario
 	sc.Family = "reload"
 	sc.Reloader = true
@@ -119,6 +151,12 @@ func runReload(sc Scenario) (res vh.Result) {
 	res.NonTrivial = len(o.Reloads) > 0 && during
 	agentErrors := vh.Logs.Take()
 	res.Violation = CheckC17(o)
+	if res.Violation == nil && os.Getenv("VERIF_PROPERTY") == "C05" {
+		res.Violation = CheckC05(o) // the ordering oracle on the same scenarios (./check C05 runs this layer as well)
+	}
+	if sc.Family == "reload-backlog" {
+		res.Classes = append(res.Classes, "reload-with-a-long-backlog-and-traffic-flowing(family)")
+	}
 	if res.Violation != nil && agentErrors != "" {
 		if len(agentErrors) > 3000 {
 			agentErrors = agentErrors[:3000]
